@@ -23,7 +23,7 @@ def is_bpp(t):
 
 def run(ctx, rep):
     prog = ctx.program("default")
-    rep.configs.append("default")
+    rep.configs.append(getattr(ctx, "alias", "default"))
     sub_image(prog, rep)
     image_new(prog, rep)
     pixel_and_draw(prog, rep)
